@@ -4,7 +4,7 @@ CONSTANTS
   SHAPES <- Q_SHAPES
   RANKS = {1, 2, 4}
   EPSEXP = {12, 6}
-  GUESS = {"none", "fresh", "alias", "reused"}
+  GUESS = {"none", "fresh", "alias", "reused", "zero"}
   SEEDS = {1, 2}
   BACKENDS = {"py"}
   PREC = {}
